@@ -49,7 +49,13 @@ _W = {}
 
 
 def _worker(job):
-    pid, tier, hname, prefixes, slice_s, seed = job
+    pid, tier, hname, prefixes, slice_s, seed, deadline_abs = job
+    slice_s = max(0.0, min(slice_s, deadline_abs - time.time()))
+    if slice_s <= 0:
+        return dict(h=hname, paths=0, aborted=0, queries=0, solver_s=0.0,
+                    checks=0, checks_unsat=0, inconclusive=0, covers=[],
+                    counters={}, samples=[], cex=[], rest=prefixes,
+                    error=None)
     os.environ["DISCOPY_VERIF"] = "1"
     from vf import engine
     try:
@@ -139,13 +145,14 @@ def run_property(pid, tier, seed, jobs, only=None, verbose=True):
     slice_s = 6 if tier == "quick" else 15
     outstanding = {name: 0 for name in hs}
     deadline = {name: time.time() + h.timeout_s for name, h in hs.items()}
-    queue = {name: [[]] for name in hs}
+    backlog = {name: [] for name in hs}
     results = []
 
     def submit(name, prefixes):
         outstanding[name] += 1
         r = pool.apply_async(
-            _worker, ((pid, tier, name, prefixes, slice_s, seed),),
+            _worker, ((pid, tier, name, prefixes, slice_s, seed,
+                       deadline[name]),),
             callback=results.append, error_callback=lambda e: results.append(
                 dict(h=name, error=repr(e), rest=[], cex=[], paths=0,
                      aborted=0, queries=0, solver_s=0.0, checks=0,
@@ -187,13 +194,18 @@ def run_property(pid, tier, seed, jobs, only=None, verbose=True):
             if rest:
                 timed_out.add(name)
             rest = []
-        # split the remaining stack over idle workers (top of stack last)
-        if rest:
-            nchunks = max(1, min(len(rest), jobs))
-            chunks = [rest[i::nchunks] for i in range(nchunks)]
-            for c in chunks:
-                submit(name, c)
-                inflight += 1
+        # split the remaining stack over idle workers; at most 2 * jobs jobs
+        # of one harness are outstanding, the rest waits in the backlog
+        backlog[name].extend(rest)
+        if time.time() > deadline[name] and backlog[name]:
+            timed_out.add(name)
+            backlog[name] = []
+        while backlog[name] and outstanding[name] < 2 * jobs:
+            room = 2 * jobs - outstanding[name]
+            per = max(1, len(backlog[name]) // (2 * room))
+            chunk, backlog[name] = backlog[name][-per:], backlog[name][:-per]
+            submit(name, chunk)
+            inflight += 1
         if outstanding[name] == 0:
             a["wall_s"] = time.time() - a["started"]
             a["exhausted"] = name not in timed_out \
